@@ -303,6 +303,11 @@ impl Program {
         let entrypoint = self.get_file(&path)?;
         log::info!("Loaded instructions from file");
 
+        #[cfg(mscript_verif)]
+        if std::env::var_os("MSCRIPT_VERIF_NOEXEC").is_some() {
+            return Ok(());
+        }
+
         {
             let mut cache_view = self.module_cache.borrow_mut();
             cache_view.insert(
